@@ -16,7 +16,7 @@ RUN_FN = "run10"
 SCOPE = "nat_scope"
 SHARD = 150
 RULE = ("a 3-axis grid (X: center/left/outer, Y: center/left, Z: center); registries built by random histories "
-        "over a pool of 13 non-uniform positive integer metrics for {X},{Y},{Z},{X,Y},{X,Z},{Y,Z},{X,Y,Z} at "
+        "over a pool of 18 non-uniform positive integer metrics for {X},{Y},{Z},{X,Y},{X,Z},{Y,Z},{X,Y,Z} at "
         "several positions (complete, partial, or only at other positions); arrays at every position with an "
         "optional extra dimension; axes requested as str / tuple in random order. The metric returned is decoded "
         "into the set of registered variables whose product (interpolated to the array's position where needed) "
@@ -25,10 +25,13 @@ RULE = ("a 3-axis grid (X: center/left/outer, Y: center/left, Z: center); regist
 
 DIMS = {"dx_c": ["xc"], "dx_c2": ["xc"], "dx_l": ["xl"], "dx_o": ["xo"], "dy_c": ["yc"], "dy_l": ["yl"], "dz_c": ["zc"],
         "a_cc": ["yc", "xc"], "a_lc": ["yc", "xl"], "a_cl": ["yl", "xc"], "a_ll": ["yl", "xl"],
-        "v_xz": ["zc", "xc"], "v_yz": ["zc", "yc"], "vol": ["zc", "yc", "xc"]}
+        "v_xz": ["zc", "xc"], "v_yz": ["zc", "yc"], "vol": ["zc", "yc", "xc"],
+        # metrics of one axis that also vary along another (dx depends on y, ...)
+        "dx_cy": ["yc", "xc"], "dx_ly": ["yl", "xl"], "dy_cx": ["yc", "xc"], "dz_cy": ["zc", "yc"]}
 KEY = {"dx_c": ["X"], "dx_c2": ["X"], "dx_l": ["X"], "dx_o": ["X"], "dy_c": ["Y"], "dy_l": ["Y"], "dz_c": ["Z"],
        "a_cc": ["X", "Y"], "a_lc": ["X", "Y"], "a_cl": ["X", "Y"], "a_ll": ["X", "Y"],
-       "v_xz": ["X", "Z"], "v_yz": ["Y", "Z"], "vol": ["X", "Y", "Z"]}
+       "v_xz": ["X", "Z"], "v_yz": ["Y", "Z"], "vol": ["X", "Y", "Z"],
+       "dx_cy": ["X"], "dx_ly": ["X"], "dy_cx": ["Y"], "dz_cy": ["Z"]}
 SIZES = {"xc": 3, "xl": 3, "xo": 4, "yc": 2, "yl": 2, "zc": 2, "t": 2}
 AXDIMS = {"X": ["xc", "xl", "xo"], "Y": ["yc", "yl"], "Z": ["zc"]}
 
@@ -67,8 +70,11 @@ def generate(rng, tier):
         naxes = rng.choice([1, 1, 2, 2, 3])
         axes = rng.sample(["X", "Y", "Z"], naxes)
         adims = []
+        # the array is located along every axis a registered metric varies along
+        needed = {a for h in history for nm in h["names"] for a, ds_ in AXDIMS.items() if set(ds_) & set(DIMS[nm])
+                  and len(DIMS[nm]) > len(KEY[nm])}
         for a in ["X", "Y", "Z"]:
-            if a in axes or rng.random() < 0.5:
+            if a in axes or a in needed or rng.random() < 0.5:
                 adims.append(rng.choice(AXDIMS[a]))
         if rng.random() < 0.3:
             adims.append("t")
@@ -249,6 +255,59 @@ def extra_checks(rng, tier, notes):
             except Exception as e:
                 out.append((rec, {"err": type(e).__name__ + ": " + str(e)[:200]}, "metric operation raised"))
     notes.append(f"integrate/average/derivative/metric_weighted relations checked on {n} random arrays")
+    out.extend(weighted_forms(rng, tier, notes))
+    return out
+
+
+def weighted_forms(rng, tier, notes):
+    """metric_weighted in each of its documented spellings (str, tuple, per-axis mapping in any key
+    order, also naming axes not operated on) over one or two axes: equal to doing, axis after axis,
+    op(data * metric) / metric-at-the-result's-position with the metric named FOR THAT AXIS."""
+    import warnings
+    import numpy as np
+    import xarray as xr
+    out = []
+    n = 40 if tier == "quick" else 400
+    for _ in range(n):
+        case = {"history": [{"key": KEY[nm], "names": [nm], "overwrite": True}
+                            for nm in ["dx_c", "dx_l", "dy_c", "dy_l", "dz_c", "a_cc", "a_ll", "a_lc", "a_cl"]],
+                "adims": [], "axes": []}
+        ds, g = build(case)
+        da = xr.DataArray(np.array([[[rng.randint(-4, 9) for _ in range(3)] for _ in range(2)] for _ in range(2)],
+                                   dtype=float), dims=["zc", "yc", "xc"])
+        op = rng.choice(["interp", "diff", "min", "max"])
+        axes = rng.sample(["X", "Y"], rng.randint(1, 2))
+        choice = lambda: rng.choice([("X",), ("Y",), ("X", "Y"), ("Y", "X")])
+        form = rng.choice(["str", "tuple", "dict", "dict", "dict"])
+        if form == "str":
+            mw = rng.choice(["X", "Y"])
+            per_axis = {a: (mw,) for a in axes}
+        elif form == "tuple":
+            mw = choice()
+            per_axis = {a: mw for a in axes}
+        else:
+            keys = list(axes) + [a for a in ["X", "Y", "Z"] if a not in axes and rng.random() < 0.5]
+            rng.shuffle(keys)
+            mw = {k: choice() for k in keys}
+            per_axis = {a: mw[a] for a in axes}
+        rec = {"op": op, "axes": axes, "metric_weighted": repr(mw), "da": da.values.tolist()}
+        try:
+            with warnings.catch_warnings():
+                warnings.simplefilter("ignore")
+                got = getattr(g, op)(da, axes, boundary="extend", metric_weighted=mw)
+                ref = da
+                for a in axes:
+                    ref = ref * g.get_metric(ref, per_axis[a])
+                    ref = getattr(g, op)(ref, a, boundary="extend")
+                    ref = ref / g.get_metric(ref, per_axis[a])
+            ok = set(got.dims) == set(ref.dims) and np.array_equal(got.values, ref.transpose(*got.dims).values)
+            obs = {"got": got.values.tolist(), "expected": ref.transpose(*got.dims).values.tolist()} if not ok else {}
+        except Exception as e:
+            ok, obs = False, {"err": type(e).__name__ + ": " + str(e)[:200]}
+        if not ok:
+            out.append((rec, obs, f"{op} over {axes} with metric_weighted={mw!r} is not op(data*metric)/metric "
+                                  "with each axis' own metric"))
+    notes.append(f"{n} metric_weighted calls in str / tuple / mapping spellings compared with the axis-by-axis definition")
     return out
 
 
